@@ -9,40 +9,37 @@ Open Scope string_scope.
 (* the key of a field in a by-alias document: `alias if alias is not None else name` *)
 Definition key_of (a: option string) (n: string) : string := match a with Some s => s | None => n end.
 
-(* schema side: metadata alias, else Config.aliases[name], else the name *)
+(* schema side: metadata alias, else the last Annotated Alias, else Config.aliases[name], else the name *)
 Lemma schema_alias_spec_thm :
-  forall (fname: string) (md: kv) (m: option string) (al: list (string * string)),
+  forall (fname: string) (md: kv) (m: option string) (l: list ann) (al: list (string * string)),
     k_dict_get md (KStr "alias") = Ok (enc_ostr m) ->
-    schema_alias md (enc_aliases al) (KStr fname) = Ok (KStr (key_of (orelse m (assoc al fname)) fname)).
+    schema_alias md (KTuple (map enc_ann l)) (enc_aliases al) (KStr fname)
+    = Ok (KStr (key_of (orelse m (orelse (last_alias l) (assoc al fname))) fname)).
 Proof.
-  intros fname md m al Hm. unfold schema_alias. rewrite Hm. cbn [bind].
+  intros fname md m l al Hm. unfold schema_alias. rewrite Hm. cbn [bind].
   remember (k_dict_get (enc_aliases al) (KStr fname)) as G eqn:HG.
   rewrite dict_get_aliases in HG.
   destruct m as [s|]; cbn [enc_ostr orelse key_of].
   - reflexivity.
-  - cbn. subst G. cbn [bind]. destruct (assoc al fname) as [s|]; reflexivity.
+  - cbn. cbn [k_for]. erewrite for_list_alias0.
+    2:{ intros [s|] acc; reflexivity. }
+    cbn [bind]. destruct (last_alias l) as [s|]; cbn; [reflexivity|].
+    subst G. cbn [bind]. destruct (assoc al fname) as [s|]; reflexivity.
 Qed.
 
-(* the two copies of the precedence rule agree unless an Annotated Alias decides *)
+(* the two copies of the precedence rule agree for all three alias sources:
+   the key the serializer writes (by alias) is the key the schema lists.
+   [isann]: the field type is Annotated[...]; then both sides see its metadata l,
+   otherwise the schema sees the empty default and the serializer does not look *)
 Theorem alias_agrees_thm :
   forall (fname: string) (md anns: kv) (m: option string) (isann: bool) (l: list ann) (al: list (string * string)),
     k_dict_get md (KStr "alias") = Ok (enc_ostr m) ->
     (isann = true -> anns = KTuple (map enc_ann l)) ->
-    (m <> None \/ isann = false \/ last_alias l = None) ->
     exists a, get_field_alias (KStr fname) md (KBool isann) anns (enc_aliases al) = Ok (enc_ostr a)
-              /\ schema_alias md (enc_aliases al) (KStr fname) = Ok (KStr (key_of a fname)).
+              /\ schema_alias md (KTuple (map enc_ann (if isann then l else []))) (enc_aliases al) (KStr fname)
+                 = Ok (KStr (key_of a fname)).
 Proof.
-  intros fname md anns m isann l al Hm Hann Hc.
+  intros fname md anns m isann l al Hm Hann.
   eexists. split; [apply (get_field_alias_spec fname md anns m isann l al Hm Hann)|].
-  rewrite (schema_alias_spec_thm fname md m al Hm).
-  destruct m as [s|]; cbn [orelse]; [reflexivity|].
-  destruct Hc as [Hc|[Hc|Hc]]; [congruence| subst isann; reflexivity|].
-  destruct isann; [rewrite Hc|]; reflexivity.
+  rewrite (schema_alias_spec_thm fname md m _ al Hm). destruct isann; reflexivity.
 Qed.
-
-(* ... and disagree when it does (known finding schema-annotated-alias-ignored):
-   x: Annotated[int, Alias("ann_x")], no metadata alias, no Config.aliases entry *)
-Theorem annotated_alias_refuted_thm :
-  get_field_alias (KStr "x") (KDict []) (KBool true) (KTuple [enc_ann (AAlias "ann_x")]) (enc_aliases []) = Ok (KStr "ann_x")
-  /\ schema_alias (KDict []) (enc_aliases []) (KStr "x") = Ok (KStr "x").
-Proof. split; reflexivity. Qed.
